@@ -13,15 +13,17 @@ from . import c05, c10
 from .routing_rules import helpers as RH
 from .c04_alg import Algebra, pass_linearity
 
-TITLE = ("The algebraic fact (xor-out/xor-in equals a fresh schedule) needs linearity of the TK1 schedule and is not decided. "
-         "Decided, all necessary: (R1) shadow-tweak protocol in set_tweak: the bytes handed to the first xor pass are a copy "
-         "of the stored tweak taken before that field is overwritten, the field is then rewritten, the second pass takes the "
-         "field itself, both passes are the same routine, bounded by rounds and stepping the same permutation helper as the "
-         "TK1 setter; (R2) a fresh tweaked schedule zero-fills the whole tweak field, passes that field as TK1 with the "
-         "domain flag 1, the untweaked path passes flag 0; (R3) after set_tweak every byte of the stored tweak is defined as "
-         "argument bytes followed by zeros (NULL = all zeros); (R4) the CTR tweak API in every back end hands the caller's "
-         "arguments unchanged to the core functions and invalidates buffered keystream; (R5) round count 48/56 (36/40) by "
-         "key-length class on the tweaked path.")
+TITLE = ("Decided, all necessary for 'result depends only on key and latest tweak' (conformance with the specification is "
+         "not decided): (R1) byte-range XOR algebra over every path of set_tweak: the buffers handed to the schedule pass "
+         "sum, byte for byte, to old stored tweak ^ zero-padded new tweak (old tweak alone for NULL), whatever the "
+         "spelling; the pass routine is linear under the constants of the call (xors only tweakey-derived values into "
+         "schedule words), steps the tweakey permutation once per round under the rounds bound, and as a GF(2) affine map "
+         "walks the tweakey exactly like the TK1 setter; (R2) a fresh tweaked schedule zero-fills the whole tweak field, "
+         "passes that field as TK1 with the domain flag 1, the untweaked path passes flag 0; (R3) after set_tweak every "
+         "byte of the stored tweak is argument bytes followed by zeros (NULL = all zeros, never dereferenced) and the "
+         "field is only written by copies of the caller's bytes or zero fills; (R4) the CTR tweak API in every back end "
+         "hands the caller's arguments unchanged to the core functions on every success path and invalidates buffered "
+         "keystream; (R5) round count 48/56 (36/40) by key-length class on the tweaked path.")
 
 
 def tweak_field(prog, f, k=0):
